@@ -135,87 +135,71 @@ class SATEncoder:
         flatten(expr)
         return terms, const
 
-    def _encode_ne_expr(self, left: Any, right: Any, is_ne: bool) -> None:
-        """Encode (left_expr != right_expr) or (left_expr == right_expr).
-
-        Handles linear expressions like (x + c1) != (y + c2).
-        """
+    def _linearize(self, expr: Any) -> tuple[list[tuple["IntVar", int]], int]:
+        """Normalise a linear expression to ([(variable, coefficient)], constant)."""
         from solvor.cp import IntVar
 
-        # Handle subtraction: (x - y) ?= c => x ?= y + c
-        if isinstance(left, tuple) and left[0] == "sub":
-            x, y = left[1], left[2]
-            if isinstance(x, IntVar) and isinstance(y, IntVar):
-                right_const = right if isinstance(right, int) else 0
-                if is_ne:
-                    for v1 in x.bool_vars:
-                        v2 = v1 - right_const
-                        if v2 in y.bool_vars:
-                            self._clauses.append([-x.bool_vars[v1], -y.bool_vars[v2]])
-                else:
-                    for v1 in x.bool_vars:
-                        v2 = v1 - right_const
-                        if v2 in y.bool_vars:
-                            self._clauses.append([-x.bool_vars[v1], y.bool_vars[v2]])
-                            self._clauses.append([x.bool_vars[v1], -y.bool_vars[v2]])
-                        else:
-                            self._clauses.append([-x.bool_vars[v1]])
-                return
+        coefs: dict[str, tuple[IntVar, int]] = {}
+        const = 0
 
-        left_terms, left_const = self._flatten_sum(left)
-        right_terms, right_const = self._flatten_sum(right)
-
-        # Handle case: single var + const on left, constant on right
-        if len(left_terms) == 1 and len(right_terms) == 0:
-            var = left_terms[0]
-            target = right_const - left_const
-            if is_ne:
-                self._encode_ne_const(var, target)
+        def walk(e: Any, k: int) -> None:
+            nonlocal const
+            if isinstance(e, IntVar):
+                coefs[e.name] = (e, coefs.get(e.name, (e, 0))[1] + k)
+            elif isinstance(e, int):
+                const += k * e
+            elif isinstance(e, tuple) and e[0] == "add":
+                walk(e[1], k)
+                walk(e[2], k)
+            elif isinstance(e, tuple) and e[0] == "sub":
+                walk(e[1], k)
+                walk(e[2], -k)
+            elif isinstance(e, tuple) and e[0] == "rsub":  # ("rsub", var, c) means c - var
+                walk(e[2], k)
+                walk(e[1], -k)
+            elif isinstance(e, tuple) and e[0] == "mul":  # ("mul", operand, int)
+                walk(e[1], k * e[2])
             else:
-                self._encode_eq_const(var, target)
+                raise ValueError(f"Cannot encode expression: {e!r}")
+
+        walk(expr, 1)
+        return [(v, c) for v, c in coefs.values() if c != 0], const
+
+    def _encode_ne_expr(self, left: Any, right: Any, is_ne: bool) -> None:
+        """Encode (left_expr != right_expr) or (left_expr == right_expr) for any linear expressions.
+
+        Both sides are brought to the form sum(coef * var) + const ?= 0. The sum is built term by term
+        in auxiliary integer variables; the last term is compared directly, without an auxiliary.
+        """
+        terms, const = self._linearize(("sub", left, right))
+
+        if not terms:
+            if (const == 0) == is_ne:
+                self._clauses.append([])
             return
 
-        # Handle case: constant on left, single var + const on right
-        if len(left_terms) == 0 and len(right_terms) == 1:
-            var = right_terms[0]
-            target = left_const - right_const
-            if is_ne:
-                self._encode_ne_const(var, target)
-            else:
-                self._encode_eq_const(var, target)
+        var, coef = terms[0]
+        partial = {coef * val: lit for val, lit in var.bool_vars.items()}  # value of the partial sum -> literal
+
+        for var, coef in terms[1:-1]:
+            sums = [s + coef * val for s in partial for val in var.bool_vars]
+            total = self._create_int_var(min(sums), max(sums))
+            for s, s_lit in partial.items():
+                for val, lit in var.bool_vars.items():
+                    self._clauses.append([-s_lit, -lit, total.bool_vars[s + coef * val]])
+            partial = dict(total.bool_vars)
+
+        if len(terms) == 1:
+            for s, s_lit in partial.items():
+                if (s + const == 0) == is_ne:
+                    self._clauses.append([-s_lit])
             return
 
-        # Handle case: two vars on left, constant on right
-        if len(left_terms) == 2 and len(right_terms) == 0:
-            target = right_const - left_const
-            if is_ne:
-                v1, v2 = left_terms
-                for val1 in v1.bool_vars:
-                    val2 = target - val1
-                    if val2 in v2.bool_vars:
-                        self._clauses.append([-v1.bool_vars[val1], -v2.bool_vars[val2]])
-            else:
-                self._encode_sum_eq(left_terms, target)
-            return
-
-        # Handle simple case: single var + const on each side
-        if len(left_terms) == 1 and len(right_terms) == 1:
-            var1, var2 = left_terms[0], right_terms[0]
-            offset = right_const - left_const
-
-            if is_ne:
-                for v1 in var1.bool_vars:
-                    v2 = v1 - offset
-                    if v2 in var2.bool_vars:
-                        self._clauses.append([-var1.bool_vars[v1], -var2.bool_vars[v2]])
-            else:
-                for v1 in var1.bool_vars:
-                    v2 = v1 - offset
-                    if v2 in var2.bool_vars:
-                        self._clauses.append([-var1.bool_vars[v1], var2.bool_vars[v2]])
-                        self._clauses.append([var1.bool_vars[v1], -var2.bool_vars[v2]])
-                    else:
-                        self._clauses.append([-var1.bool_vars[v1]])
+        var, coef = terms[-1]
+        for s, s_lit in partial.items():
+            for val, lit in var.bool_vars.items():
+                if (s + coef * val + const == 0) == is_ne:
+                    self._clauses.append([-s_lit, -lit])
 
     # Sum constraints
 
